@@ -262,6 +262,7 @@ def answers(m, ctx, tag):
 class History(Scenario):
     modules = ["mxlpy.model"]
     float_shim = ["mxlpy.model"]
+    isinstance_shim = ["mxlpy.model"]  # a symbolic value counts as a float in `isinstance(v, float)` tests
 
     def __init__(self, opseq, prequery=True):
         self.opseq = opseq  # list of (label, fn)
